@@ -711,6 +711,12 @@ impl<'t> Glob<'t> {
         self.tree.as_ref().as_token().is_empty()
     }
 
+    /// Verification hook (H1): text of the compiled regular expression.
+    #[cfg(olson_sean_k_wax_verif)]
+    pub fn verif_program_pattern(&self) -> &str {
+        self.program.as_str()
+    }
+
     fn compile<T>(tree: impl Borrow<T>) -> Result<Regex, CompileError>
     where
         T: ConcatenationTree<'t>,
@@ -789,6 +795,12 @@ pub struct Any<'t> {
 impl<'t> Any<'t> {
     fn compile(token: &Token<'t, ()>) -> Result<Regex, CompileError> {
         encode::compile::<Token<_>>(token)
+    }
+
+    /// Verification hook (H1): text of the compiled regular expression.
+    #[cfg(olson_sean_k_wax_verif)]
+    pub fn verif_program_pattern(&self) -> &str {
+        self.program.as_str()
     }
 }
 
